@@ -45,7 +45,7 @@ CLAIMS = {
          "sub-parse strictly consumes input), hence compile is total with exactly two outcomes, program or rejection (C01_total); pos_for (positions of macro errors) exists for every offset in the source and never points beyond it; characters no "
          "token rule starts with, and unterminated one-quote literals, do not lex. CEL.g4's parser rules are stated as a derivation relation over tokens (Model/Grammar.v) and the parser is proved SOUND against it "
          "(C01_accept_sound: whatever compile accepts is derivable from start : expr EOF, all tokens consumed); every derivable token list has each kind "
-         "of bracket balanced and ends in a closing token (C01_accepted_shape, mutual induction over the derivation), so unbalanced, dangling or empty texts are "
+         "of bracket balanced, the brackets properly nested (a well-nested word over the three bracket kinds) and ends in a closing token (C01_accepted_shape, mutual induction over the derivation), so unbalanced, dangling or empty texts are "
          "never accepted. PARTIAL because completeness against the whole grammar is not proved (C04 proves it for the operator grammar) and error positions of "
          "syntax errors are ANTLR's own. "
          "The tie to the real ANTLR parser is the correspondence run: accept/reject AND the resulting tree are compared on all "
